@@ -34,7 +34,8 @@ func Register() {
 // ---------------------------------------------------------------------------------------
 // layout variants
 
-var blockComments = []string{"/* c */", "/**/", "/* // */", "/* # */", "/* \" */", "/* ' */", "/* { ( [ */", "/* a */ /* b */", "/* a *//* b */", "/*\t*/", "/* é */", "/* * / */"}
+var blockComments = []string{"/* c */", "/**/", "/* // */", "/* # */", "/* \" */", "/* ' */", "/* { ( [ */", "/* a */ /* b */", "/* a *//* b */", "/*\t*/", "/* é */", "/* * / */",
+	"/***/", "/****/", "/*****/", "/* banner **/", "/** doc */", "/** b **/", "/****** b ******/", "/* a * b ** c *** d */", "/* **/", "/***\t***/", "/* / * / */"}
 var lineComments = []string{"// c", "# c", "//", "#", "// \"unterminated", "# /* not a block", "// */", "#!x", "// é 日本"}
 var spaces = []string{" ", "\t", "  ", " \t ", "\t\t"}
 
